@@ -1,13 +1,17 @@
 package scen
 
 import (
-	"time"
 	"encoding/json"
+	"errors"
 	"fmt"
+	"io"
 	"math"
+	"net/http"
 	"os"
 	"path/filepath"
 	"sort"
+	"strings"
+	"time"
 
 	"lunar/aggregation-plugin/common"
 	"lunar/aggregation-plugin/discovery"
@@ -23,6 +27,35 @@ import (
 // tree from the known endpoints only). DESIGN.md section 4, C15.
 
 func init() { register(&Scenario{ID: "C15", Batch: true, Run: runC15}) }
+
+// c15Admin stands in for the engine's admin endpoint, which the plugin tells about
+// failed transactions before it aggregates a batch (the child runs with
+// ENGINE_ADMIN_PORT set, as the product image does). It is the process's default HTTP
+// transport: no socket is opened. mode 0 = reachable, 1 = nothing listens, 2 = every
+// other call fails, 3 = answers 500.
+type c15Admin struct {
+	mode  int
+	calls int
+	fails int
+}
+
+func (a *c15Admin) RoundTrip(r *http.Request) (*http.Response, error) {
+	a.calls++
+	if r.Body != nil {
+		io.Copy(io.Discard, r.Body)
+		r.Body.Close()
+	}
+	if a.mode == 1 || (a.mode == 2 && a.calls%2 == 1) {
+		a.fails++
+		return nil, errors.New("dial tcp " + r.URL.Host + ": connect: connection refused")
+	}
+	code := 200
+	if a.mode == 3 {
+		code = 500
+	}
+	return &http.Response{StatusCode: code, Status: fmt.Sprint(code), Proto: "HTTP/1.1", ProtoMajor: 1, ProtoMinor: 1,
+		Header: http.Header{}, Body: io.NopCloser(strings.NewReader("")), Request: r}, nil
+}
 
 // c15Known: the endpoints declared in the policies file (set per run); the URL
 // tree of every delivery and of every restart is built from them.
@@ -172,6 +205,20 @@ func runC15(s *kernel.Sim) {
 		s.Knobs["known_endpoints"] = fmt.Sprint(c15Known.Endpoints)
 	}
 	defer func() { c15Known = sharedDiscovery.KnownEndpoints{} }()
+	// the engine's admin endpoint: reachable in half of the runs
+	admin := &c15Admin{mode: []int{0, 0, 0, 1, 2, 3}[tp.Choose(6)]}
+	s.Knobs["engine_admin_endpoint"] = []string{"reachable", "unreachable", "unreachable every other time", "answers 500"}[admin.mode]
+	oldTransport := http.DefaultTransport
+	http.DefaultTransport = admin
+	defer func() {
+		http.DefaultTransport = oldTransport
+		if admin.fails > 0 {
+			s.FaultFired("engine_admin_unreachable")
+		}
+		if admin.calls > 0 {
+			s.Probe("failed_transactions_reported_to_the_engine")
+		}
+	}()
 	threshold := tp.Range(2, 5)
 	n := tp.Range(5, 120)
 	nIDs := threshold + tp.Range(0, 4)
